@@ -440,3 +440,78 @@ _obligations_c11b = obligations
 
 def obligations(ctx, cfg):
     return _obligations_c11b(ctx, cfg) + [SubscriberHistory(ctx)]
+
+
+class ReadbackHistory(Obligation):
+    id = 'C11.g-history-topic-deleted-and-recreated'
+    tier = 'T3'
+    desc = ('real services: CreateSubscription S on T, T is deleted (unregistered, last handle gone), GetSubscription S, a new topic is created under the name of T, '
+            'GetSubscription S again: both read-backs report the deleted-topic sentinel; the new topic gets no attach request for S')
+    bounds = {'history': 'the 5 steps above'}
+    unroll = 8
+
+    def __init__(self, ctx):
+        install_tokens(ctx)
+
+    def body(self, ip, p):
+        ctx = ip.ctx
+        from framework import run_async
+        from props.service import proto, request, start_handler
+        from props.C10 import typed_reply
+        from models_core import ok
+        ctx.on_enqueue = typed_reply
+        tmgr = run_to_end(ip.call_fn(ctx.fn('TopicManager', 'new'), []))
+        tm_arc = ArcCell(Cell(tmgr, 'topic-manager'))
+        pstate = Cell(mk(ctx, 'PushSubscriptionsRegistryState', push_subscriptions=MapM([])), 'pstate')
+        reg = mk(ctx, 'PushSubscriptionsRegistry', state=ArcCell(Cell(LockM('push_registry.state', pstate))))
+        smgr = run_to_end(ip.call_fn(ctx.fn('SubscriptionManager', 'new'), [reg]))
+        sm_arc = ArcCell(Cell(smgr, 'subscription-manager'))
+        svc = run_to_end(ip.call_fn(ctx.fn('SubscriberService', 'new'), [tm_arc, sm_arc]))
+        proj = p.fresh('project')
+        tname = mk(ctx, 'TopicName', project_id=StrTok(proj), topic_id=StrTok(p.fresh('topic_id')))
+        sname = mk(ctx, 'SubscriptionName', project_id=StrTok(proj), subscription_id=StrTok(p.fresh('sub_id')))
+        ip.hooks[r'^parse_topic_name$'] = lambda ip_, callee, args: (ok(tname),)
+        ip.hooks[r'^parse_subscription_name$'] = lambda ip_, callee, args: (ok(sname),)
+        t1 = run_to_end(ip.call_fn(ctx.fn('TopicManager', 'create_topic'), [Ref(tm_arc.deref_loc(ip)), tname]))
+        nfield, tfield = StrTok(p.fresh('name_field')), StrTok(p.fresh('topic_field'))
+
+        def call(method, req):
+            n0 = len(p.log)
+            fut = start_handler(ip, p, 'subscriber', method, svc, request(req))
+            res, _ = run_async(ip, p, fut, budget=0)
+            return res, [e for e in p.log[n0:] if e[0] == 'enqueue']
+        c1, _ = call('create_subscription', proto(ctx, 'Subscription', name=nfield, topic=tfield, push_config=Enum('Option', 0, {}),
+                                                   ack_deadline_seconds=S(z3.IntVal(10), 'i32')))
+        # DeleteTopic: the topic actor unregisters the topic (C11.a) and, its last handle gone, the object is freed
+        delegate = mk(ctx, 'TopicManagerDelegate', state=fld(ctx, tm_arc.cell.v, 'TopicManager', 'state'))
+        run_to_end(ip.call_fn(ctx.fn('TopicManagerDelegate', 'delete'), [Ref(Loc(Cell(delegate))), Ref(Loc(Cell(tname)))]))
+        if t1.discr == 0 and isinstance(t1.payload[0][0], ArcCell):
+            t1.payload[0][0].cell.dropped = True
+        g1, _ = call('get_subscription', proto(ctx, 'GetSubscriptionRequest', subscription=nfield))
+        n_mid = len(p.log)
+        t2 = run_to_end(ip.call_fn(ctx.fn('TopicManager', 'create_topic'), [Ref(tm_arc.deref_loc(ip)), tname]))
+        g2, _ = call('get_subscription', proto(ctx, 'GetSubscriptionRequest', subscription=nfield))
+        late = [e for e in p.log[n_mid:] if e[0] == 'enqueue' and e[3].name == 'TopicRequest']
+        return {'t1': t1, 't2': t2, 'c1': c1, 'g1': g1, 'g2': g2, 'late_topic_requests': late}
+
+    def post(self, ip, p, res):
+        ctx = ip.ctx
+        from models_str import Str
+        out = [Claim('both topics, the subscription and both read-backs succeed', all(res[k].discr == 0 for k in ('t1', 't2', 'c1', 'g1', 'g2')))]
+        if not all(res[k].discr == 0 for k in ('g1', 'g2')):
+            return out
+        order = ctx.src.struct_fields('Subscription', 'pubsub_proto_generated')
+        for k, when in (('g1', 'after the topic was deleted'), ('g2', 'after a topic of the same name was created again')):
+            resp = res[k].payload[0][0].fields[0]
+            tn = resp.fields[order.index('topic')]
+            out.append(Claim('%s the subscription reports the deleted-topic sentinel' % when, isinstance(tn, Str) and tn.concrete() == b'_deleted_topic_'))
+        out.append(Claim('the new topic is not asked to attach the old subscription', len(res['late_topic_requests']) == 0))
+        out.append(Cover('reached'))
+        return out
+
+
+_obligations_c11c = obligations
+
+
+def obligations(ctx, cfg):
+    return _obligations_c11c(ctx, cfg) + [ReadbackHistory(ctx)]
